@@ -85,7 +85,7 @@ def hbbuffer_seq(ctx, d, exe, fails):
         depth = 10 if q else 20
         c = {"Items": set(pmap(prio)), "Prio": pmap(prio), "Size": size, "MaxLen": depth, "MaxChain": 3}
         mod, cfg = mcgen.write_mc(d, "hbsim%d" % size, "HBBuffer", c, invariants=("TypeOK", "Emit"))
-        hs = ctx.tlc_histories(d, mod, cfg, 120 if q else 2000, depth + 1, workers=4)
+        hs = ctx.tlc_histories(d, mod, cfg, 120 if q else 1000, depth + 1, workers=4)
         lines = sorted(set(hb_line(h) for h in hs))
         ns += replay_and_validate(ctx, d, exe, "hbseq", [str(size), ",".join(str(p) for p in prio)], lines, "HBTrace", c,
                                   "hbsim%d" % size, "hbbuffer size %d (walks)" % size, fails)
@@ -95,22 +95,24 @@ def hbbuffer_seq(ctx, d, exe, fails):
 
 def heap_seq(ctx, d, exe, fails):
     q = ctx.quick
-    prio = [0, 1, 1, 2, 2] if q else [0, 1, 1, 2, 2, 0]
-    c = {"Items": set(pmap(prio)), "Prio": pmap(prio), "MaxHeaps": 3, "MaxLen": 5 if q else 6}
+    prio = [0, 1, 1, 2, 2]
+    c = {"Items": set(pmap(prio)), "Prio": pmap(prio), "MaxHeaps": 3, "MaxLen": 5 if q else 6, "InsHeaps": {1, 2, 3}}
     mod, cfg = mcgen.write_mc(d, "heap", "MaxHeap", c, invariants=("TypeOK", "Emit"))
     r = ctx.tlc_check(d, mod, cfg, must_cover=("Insert", "Remove", "Split"), workers=4, timeout=1500)
     lines = sorted(set(heap_line(h) for h in (tlc._parse_tla_string_list(l) for l in r.printed) if h))
-    n = replay_and_validate(ctx, d, exe, "heapseq", [",".join(str(p) for p in prio)], lines, "HeapTrace", c, "heap",
+    n = replay_and_validate(ctx, d, exe, "heapseq", [",".join(str(p) for p in prio), "3"], lines, "HeapTrace", c, "heap",
                             "maxheap", fails)
     ctx.extra["heap_behaviours_bfs"] = n
     prio = [(7 * i + 3) % 11 for i in range(64)]
     depth = 120 if q else 200
-    c = {"Items": set(pmap(prio)), "Prio": pmap(prio), "MaxHeaps": 14, "MaxLen": depth}
-    mod, cfg = mcgen.write_mc(d, "heapsim", "MaxHeap", c, invariants=("Emit",))
-    hs = ctx.tlc_histories(d, mod, cfg, 40 if q else 600, depth + 1, workers=4)
-    lines = sorted(set(heap_line(h) for h in hs))
-    ns = replay_and_validate(ctx, d, exe, "heapseq", [",".join(str(p) for p in prio)], lines, "HeapTrace", c, "heapsim",
-                             "maxheap (walks, up to 64 tasks)", fails)
+    ns = 0
+    for tag, ins in (("heapsim", set(range(1, 15))), ("heapsim1", {1})):     # many heaps / one large heap split repeatedly
+        c = {"Items": set(pmap(prio)), "Prio": pmap(prio), "MaxHeaps": 14, "MaxLen": depth, "InsHeaps": ins}
+        mod, cfg = mcgen.write_mc(d, tag, "MaxHeap", c, invariants=("Emit",))
+        hs = ctx.tlc_histories(d, mod, cfg, 24 if q else 150, depth + 1, workers=4)
+        lines = sorted(set(heap_line(h) for h in hs))
+        ns += replay_and_validate(ctx, d, exe, "heapseq", [",".join(str(p) for p in prio), "14"], lines, "HeapTrace", c, tag,
+                                  "maxheap (walks, up to 64 tasks)", fails)
     ctx.extra["heap_behaviours_sim"] = ns
     return n + ns
 
